@@ -261,7 +261,9 @@ fn interpret(name: &'static str, bytes: &[u8]) -> Read {
     let mut at: Option<Sgr> = None;
     for ev in vt.feed(bytes) {
         match ev {
-            Ev::Csi { params, inter, ignore: false, byte: b'm' } if inter.is_empty() => sgr.apply(&params),
+            Ev::Csi { params, inter, ignore: false, byte: b'm' } if inter.is_empty() => {
+                let _ = sgr.apply(&params);
+            }
             Ev::Print('x') if at.is_none() => at = Some(sgr),
             other => {
                 r.error = Some(format!("rendered output contains something other than SGR sequences and the content: {other:?}"));
